@@ -14,7 +14,7 @@ import json
 import os
 import subprocess
 
-from .common import VERIF, add_failure, bump, log, new_outcome
+from .common import LEAN, SRC, VERIF, add_failure, bump, log, new_outcome
 
 PROP = "C19"
 PROPS_FILES = ["CogentModel/Props/C19.lean"]
@@ -36,6 +36,27 @@ ASSUMPTIONS = [
     "atomic_write(path, tmpdir=D): modelled for the success path (programTmp); crash / fault points on that route are judged by the spec oracle only",
     "zip-member faults: the failing zip_data call is the open of the archive (zipfile's own retry in 'w+b' is part of the model's handler); a failing close() writes nothing",
 ]
+
+GEN_FILE = LEAN / "CogentModel" / "Gen" / "C19Program.lean"
+
+
+def generate(ctx):
+    """translator step: the control structure around the file-system calls of util/io.py atomic_write (and the write list of
+    DataStoreDirectory._write) -> Gen/C19Program.lean, from the CURRENT source; Props/C19.lean proves the result equal to the hand model"""
+    import sys
+
+    sys.path.insert(0, str(VERIF))
+    from translator import c19_atomic2lean as tr
+
+    try:
+        lean, info, problems = tr.translate(SRC / "util" / "io.py", SRC / "app" / "data_store.py")
+    except (tr.TranslationError, SyntaxError, OSError) as e:
+        return [f"c19_atomic2lean: {e}"]
+    ctx.notes.append("c19_atomic2lean: " + json.dumps({k: info.get(k) for k in ("code", "store_writes", "preconditions")})[:1200])
+    if lean is not None and tr.write_if_changed(GEN_FILE, lean):
+        ctx.notes.append("Gen/C19Program.lean was rewritten (the translated source differs from the last generated text)")
+    return [f"c19_atomic2lean: {p}" for p in problems]
+
 
 STANDARD = ("plain", "gz", "json", "phylip")
 # PermissionError (EACCES, EPERM), FileExistsError, FileNotFoundError, IsADirectoryError and plain OSError flavours
@@ -154,7 +175,10 @@ def _collect(ctx, cfg):
         if commit_call:
             # at the calls that touch the destination also: the failing condition PERSISTS (a retry fails again), and the process is
             # killed one / two calls after the (possibly swallowed) failure
-            for en in ERRNOS if (ctx.thorough or present) else ["EACCES"]:
+            # quick tier: both PermissionError flavours (the class a "remove and retry" fallback keys on) + one rotating other errno
+            rot = [e for e in ERRNOS if e not in ("EACCES", "EPERM")]
+            some = ["EACCES", "EPERM", rot[(k + len(w) + len(t) + ctx.seed) % len(rot)]]
+            for en in ERRNOS if ctx.thorough else (some if present else ["EACCES"]):
                 data["faults_errno"][(k, en, "persist")] = srv.job(kind="write", writer=w, target=t, present=present, mode="fault", k=k, errno=en, persist=True, workdir=wd)
                 for ka in (1, 2):
                     data["faults_errno"][(k, en, f"kill+{ka}")] = srv.job(kind="write", writer=w, target=t, present=present, mode="fault", k=k, errno=en,
@@ -309,6 +333,9 @@ def correspondence(ctx):
                 "(see the historical_* theorems of Props/C19.lean for what that loses)",
                 dict(inp, variant=[commit, guarded, wb, bu, cb]), ["replace", True, True, False], [commit, guarded, wb, bu], confirmed=False,
             )
+        _gen_corr(ctx, out, cfg, data, mcfg, True)
+        if tclass == "standard":
+            _gen_fmt_corr(ctx, out, cfg, data, mcfg, dest0)
         if len(out["samples"]) < 6 and present:
             out["samples"].append(dict(inp, trace=tr, commit=commit, guarded=guarded, with_block=wb, body_unlink=bu, close_in_body=cb))
     ctx.notes.append(
@@ -320,6 +347,59 @@ def correspondence(ctx):
     _resume_corr(ctx, out)
     _fine_corr(ctx, out)
     return out
+
+
+def _gen_corr(ctx, out, cfg, data, mcfg, own):
+    """the program TRANSLATED from util/io.py (Gen/C19Program.lean, run under the with-statement protocol of Model/AtomicProg.lean)
+    vs the real traces: no fault, and every call k raising (every injected errno): same calls, same outcome (raised / returned)"""
+    w, t, present = cfg
+    inp = dict(writer=w, target=t, present=present)
+    base = data["base"]
+    keys = [None] + sorted(data["faults"])
+    res = ctx.driver.batch([("gen_run", dict(cfg=mcfg, own=own, k=k)) for k in keys])
+    for k, mr in zip(keys, res):
+        reals = [("EIO", base if k is None else data["faults"][k])]
+        if k is not None:
+            reals += [(key[1], r) for key, r in data.get("faults_errno", {}).items() if key[0] == k and len(key) == 2]
+        for en, real in reals:
+            if k is not None and en == "EEXIST" and (base["trace"][k][0] == "mkdir"):
+                bump(out, "gen_run", "skipped: tempfile.mkdtemp retries another name on FileExistsError (stdlib, outside the model)")
+                continue
+            out["evaluations"] += 1
+            bump(out, "gen_run", "no-fault" if k is None else ("raised" if mr["raised"] else "swallowed"))
+            got = [_trace_shape(real.get("trace") or []), real.get("exc") is not None]
+            exp = [_trace_shape(mr["trace"]), mr["raised"]]
+            if exp != got:
+                add_failure(out, "corr", "the program translated from util/io.py (Gen/C19Program.lean), run with call k raising, differs from the real "
+                            "writer: calls issued / whether the exception reaches the caller", dict(inp, mode="fault" if k is not None else "trace", k=k, errno=en, own_tmpdir=own),
+                            exp, got, confirmed=False)
+            elif k is not None:
+                out["nontrivial"].add((w, t, present, "gen", k, en))
+
+
+def _gen_fmt_corr(ctx, out, cfg, data, mcfg, dest0):
+    """formatting failure (the writer's own code raises in place of data write k): translated program vs real trace and directory"""
+    w, t, present = cfg
+    tr = data["base"]["trace"]
+    ks = sorted(data["fmtfails"])
+    if not ks:
+        return
+    res = ctx.driver.batch([("gen_fmtfail", dict(cfg=mcfg, dest=dest0, n=sum(1 for c in tr[:k] if c[0] == "write"))) for k in ks])
+    for k, mr in zip(ks, res):
+        real = data["fmtfails"][k]
+        out["evaluations"] += 1
+        bump(out, "gen_run", "formatting-failure")
+        rtrace = list(real.get("trace") or [])
+        if len(rtrace) > k:
+            del rtrace[k]  # the hook recorded the write whose place the formatting failure took; it never happened
+        mc, mtmp = _model_state_canon(mr["state"])
+        got = [_trace_shape(rtrace), real.get("exc") is not None, _canon_state(real["after"]), bool(real["after"]["leftover"])]
+        exp = [_trace_shape(mr["trace"]), mr["raised"], mc, mtmp]
+        if exp != got:
+            add_failure(out, "corr", "formatting failure inside the writer's with-block: the translated program (Gen/C19Program.lean) differs from the real writer "
+                        "(calls issued / exception / destination / temp dir)", dict(writer=w, target=t, present=present, mode="fmtfail", k=k), exp, got, confirmed=False)
+        else:
+            out["nontrivial"].add((w, t, present, "gen-fmtfail", k))
 
 
 def _corr_tmpdir(ctx, out, cfg):
@@ -344,6 +424,7 @@ def _corr_tmpdir(ctx, out, cfg):
         return
     cl, mr = hit
     bump(out, "tmpdir_cleanup_variant", cl)
+    _gen_corr(ctx, out, cfg, data, mcfg, False)
     real_keeps = all(x in base["after"]["leftover"] for x in CALLER_FILES)
     mdest = mr["dest"]
     mtext = bytes(mdest["data"]).decode("latin-1") if mdest["kind"] == "file" else None
@@ -401,7 +482,7 @@ def _judge(cfg, data, mode, k, real, out, collect=True):
         # write went on: it must then be a complete write
         if after != new:
             res.append((f"fault:{tclass}:{call}:{symptom() or 'dest-other'}", f"OSError raised by call {k} ({call}) was swallowed, the write reported success but the destination is not the new content", new, after))
-        if left:
+        if left and call != "rmtree":
             res.append((f"fault:{tclass}:{call}:temp-left", f"OSError raised by call {k} ({call}) was swallowed, the write reported success but temporary files stay behind", [], left))
     elif mode == "fault":
         s = symptom()
@@ -682,13 +763,19 @@ def _fine_corr(ctx, out):
             reqs.append(("fine", dict(variant=variant, inputs=[[m, m != c["short"]] for m in ids], j=j, p=p)))
             keep.append((c, ids, j, p))
         bad = []
+        gen_is = None
         for (c, ids, j, p), mr in zip(keep, ctx.driver.batch(reqs)):
             real_crash, real_final = _cells(c["res"]["after_kill"], ids), _cells(c["res"]["store"], ids)
+            gen_is = mr.get("gen_is_variant")
             if mr["crash"] != real_crash or mr["resumed"] != real_final:
                 bad.append((dict(mode=c["mode"], k=c["k"], j=j, p=p, variant=variant, order=ids, short=c["short"]), [mr["crash"], mr["resumed"]], [real_crash, real_final]))
         if best is None or len(bad) < len(best[1]):
-            best = (variant, bad, len(keep))
-    variant, bad, n = best
+            best = (variant, bad, len(keep), gen_is)
+    variant, bad, n, gen_is = best
+    bump(out, "store_write_list_translated_is_detected_variant", str(gen_is))
+    if gen_is is False and not bad:
+        add_failure(out, "corr", "the write list translated from DataStoreDirectory._write (Gen/C19Program.storeWrites) does not give the file operations of the "
+                    "variant the real store follows under kill injection", dict(variant=variant), "blockOfWrites storeWrites = block variant", "different", confirmed=False)
     bump(out, "store_write_variant", variant)
     out["evaluations"] += n
     for inp, exp, got in bad[:3]:
